@@ -499,4 +499,12 @@ def endBlock (s : St) (f : Fault) (h now : Nat) (tokens : List Nat) (ests : List
 def addClaim (s : St) (n : Nat) (c : Claim) : St :=
   if s.claims.any (fun x => x.1 == n) then s else { s with claims := s.claims ++ [(n, c)] }
 
+/-- A chain export followed by an import of the bridge module's genesis (x/skyway/keeper/genesis.go), as it behaves: pool,
+batches (with their checkpoints), tax and limit settings, the id counters and the oracle cursor come back; the per-token
+window usage records (`BridgeTransferUsage`) are not part of the genesis state and are gone — every limit window starts
+afresh — and so is the archive of issued checkpoints (`PastEthSignatureCheckpoint`): `InitGenesis` stores the exported
+batches without archiving their checkpoints (known finding C13-archive-not-exported).  Not an `Op` of the history machine (the properties quantify over messages and blocks); the driver applies it for
+the harness's `reimport` lines. -/
+def reimport (s : St) : St := { s with usage := fun _ => none, archive := [] }
+
 end Paloma.Bridge
